@@ -35,6 +35,7 @@ import (
 	"net/url"
 	"os"
 	"path/filepath"
+	"runtime/pprof"
 	"sort"
 	"strings"
 	"sync"
@@ -882,6 +883,12 @@ type counters struct {
 
 func main() {
 	run := evid.New("C11", "exploration")
+	if pf := os.Getenv("C11_PROF"); pf != "" {
+		f, _ := os.Create(pf)
+		pprof.StartCPUProfile(f)
+		defer pprof.StopCPUProfile()
+		go func() { time.Sleep(40 * time.Second); pprof.StopCPUProfile(); f.Close(); os.Exit(3) }()
+	}
 	maxLen := 4
 	budget := 150 * time.Second
 	if run.Thorough() {
